@@ -107,6 +107,11 @@ func (b *backend) Delete(ctx context.Context, r *proto.DeleteRequest) (resp *pro
 		// 1. expect revision is too old
 		// 2. concurrent modification
 		val, modRevision, getErr := b.get(ctx, r.Key, 0)
+		if getErr == storage.ErrKeyNotFound {
+			// the key has been deleted in the meantime: there is no current value to return,
+			// and certainly not the one the request expected
+			return resp, nil
+		}
 		if getErr != nil {
 			resp.Kv = &proto.KeyValue{
 				Key:      r.Key,
